@@ -169,7 +169,7 @@ def run(path, gen, unit, rlimit=30, seed=None, extra=None, timeout=900, threads=
     if threads:
         cmd += ['--num-threads', str(threads)]
     if seed is not None:
-        cmd += ['-V', 'smt-option=smt.random_seed=%d' % seed, '-V', 'smt-option=sat.random_seed=%d' % seed]
+        cmd += ['--smt-option', 'smt.random_seed=%d' % seed, '--smt-option', 'sat.random_seed=%d' % seed]
     if extra:
         cmd += extra
     res.cmd = ' '.join(cmd)
